@@ -898,6 +898,8 @@ class Exec:
             return ObjShape(v.cls)
         if isinstance(v, OptV):
             return V.OptShape(self.shape_of(v.val))
+        if isinstance(v, SetV):
+            return V.SetShape(v.shape)
         raise Unsupported(f"no element shape for {type(v).__name__}")
 
     def ev_Attribute(self, e):
@@ -1087,6 +1089,20 @@ class Exec:
             r = SeqV(a.shape, m, a.n)
             r.is_ndarray = True
             return r
+        if isinstance(op, ast.Add) and isinstance(a, (SeqV, EmptySeq)) and isinstance(b, (SeqV, EmptySeq)) and not getattr(a, "is_ndarray", False):
+            # list concatenation: defined arrays  m[i] == (a[i] if i < len(a) else b[i - len(a)])
+            if isinstance(a, EmptySeq):
+                return b
+            if isinstance(b, EmptySeq):
+                return a
+            a, b = self.materialize(a), self.materialize(b)
+            i = z3.Const(fresh_name("cc"), z3.IntSort())
+            arrs = []
+            for x, y in zip(arrs_of(a), arrs_of(b)):
+                m = z3.Const(fresh_name("concat"), x.sort())
+                self.assume(V.qforall([i], z3.Select(m, i) == z3.If(i < a.n, z3.Select(x, i), z3.Select(y, i - a.n)), patterns=[z3.Select(m, i)]))
+                arrs.append(m)
+            return SeqV(a.shape, arrs if len(arrs) > 1 else arrs[0], a.n + b.n)
         if isinstance(op, ast.Mult) and isinstance(a, SeqV) and a.n.eq(z3.IntVal(1)):
             # [x] * n
             n = to_num(b)
@@ -1257,6 +1273,9 @@ class Exec:
             return z3.And(z3.Not(v.isnone), self.truth(v.val))
         if isinstance(v, SeqV):
             return v.n > 0
+        if isinstance(v, SetV):
+            x = z3.Const(fresh_name("tx"), key_sort(v.shape))
+            return z3.Exists([x], z3.Select(v.arr, x))
         if isinstance(v, EmptySeq):
             return z3.BoolVal(False)
         if isinstance(v, MapV) and v.keys is not None:
@@ -1469,6 +1488,8 @@ class Exec:
         c = self.prop.lookup_method(recv.cls, name, self.relfile)
         if c is None:
             raise Unsupported(f"method {recv.cls}.{name} has no contract")
+        if c.is_static():
+            return self.call_contract(c, list(args), kwargs, node)  # @staticmethod: no receiver
         return self.call_contract(c, [recv] + list(args), kwargs, node)
 
     def call_inline(self, f, args, kwargs, node):
